@@ -58,6 +58,7 @@ func checkC04(c *core.Ctx, r *core.Report) {
 	r.NotCovered = "any numeric result, bucket boundaries, group-key uniqueness, sparse/mixed-type group-by behaviour, sketch error, the bookkeeping of per-measure result slots beyond the scratch-map clause"
 
 	checkRunningExtremes(c, r)
+	c04PerBucketAccumulator(c, r)
 
 	c04FloorSnap(c, r)
 	c04UsageLattice(c, r)
